@@ -75,8 +75,9 @@ class World:
         self.labels = {}
         self.nontrivial = set()
         self.reordering = False
+        self._was_reordering = False
         self.sem = cfg.get('semantic', 1)
-        for x in self.U[:cfg.get('init_vars', 2)]:
+        for x in (cfg.get('order') or self.U[:cfg.get('init_vars', 2)]):
             self.api.declare(x)
             self.order.append(x)
         self._starts = cfg.get('reorder_starts')
@@ -95,6 +96,8 @@ class World:
         else:
             self.api.configure(reordering=bool(on))
         self.reordering = bool(on)
+        if on:
+            self._was_reordering = True
 
     @contextlib.contextmanager
     def quiet(self):
@@ -205,8 +208,20 @@ class World:
         b = self.b
         # order model
         actual = [b._level_to_var.get(l) for l in range(len(b.vars))]
-        require(actual == self.order, 'order.model_mismatch',
-                dict(actual=actual, model=self.order))
+        if self.reordering or self._was_reordering:
+            # dynamic reordering may sift at any node creation: any
+            # permutation of the same names is legal; adopt it
+            require(sorted(map(str, actual)) == sorted(self.order),
+                    'order.model_mismatch',
+                    dict(actual=actual, model=self.order))
+            if actual != self.order:
+                self.label('dynamic_reordering.changed_order')
+                self.nontrivial.add('dynreorder')
+            self.order = actual
+            self._was_reordering = self.reordering
+        else:
+            require(actual == self.order, 'order.model_mismatch',
+                    dict(actual=actual, model=self.order))
         led = self.ledger()
         den = Den(b, self.U)
         for k, e in enumerate(self.held):
@@ -321,9 +336,8 @@ class World:
         """mask == 0: remove all unused; else the selected subset."""
         b = self.b
         if self.kind == 'autoref':
-            target = b     # not exposed by dd.autoref; dd.bdd API
-        else:
-            target = b
+            return      # not exposed by dd.autoref
+        target = b
         unused = set(self.unused_names())
         if mask == 0:
             sel = None
